@@ -414,12 +414,12 @@ def run_batch(ctx, n_runs, prefixes, label, max_levels=4, max_leaves=8, raise_is
                 # the parents of the dropped level hold genes that no other list of the table has
                 usable = [g for g in sc.ref_genes if g in sc.query_genes]
                 keys = [k for k in sc.markers if k.startswith(over['drop_level'] + '/')]
-                for k, g in zip(keys, usable):
+                for mk_, g in zip(keys, usable):
                     for kk in sc.markers:
-                        if kk != k and g in sc.markers[kk] and len(sc.markers[kk]) > 1:
+                        if kk != mk_ and g in sc.markers[kk] and len(sc.markers[kk]) > 1:
                             sc.markers[kk] = [x for x in sc.markers[kk] if x != g]
-                    if g not in sc.markers[k]:
-                        sc.markers[k] = list(sc.markers[k]) + [g]
+                    if g not in sc.markers[mk_]:
+                        sc.markers[mk_] = list(sc.markers[mk_]) + [g]
             ctx.dist('special_scenario', k)
         else:
             sc = pipeline.gen_scenario(rng, max_levels=max_levels, max_leaves=max_leaves,
